@@ -69,13 +69,16 @@ func Compile(src string, mapFn xpath.PfxMapFn) (m *xpath.Machine, err error, pan
 }
 
 // RunMachine runs m on entry and observes the result through all accessors.
-func RunMachine(m *xpath.Machine, entry xpath.Entry) (o Obs) {
+func RunMachine(m *xpath.Machine, entry xpath.Entry) (o Obs) { return RunMachineDebug(m, entry, false) }
+
+// RunMachineDebug: the same with the context's debug listing on or off.
+func RunMachineDebug(m *xpath.Machine, entry xpath.Entry, debug bool) (o Obs) {
 	defer func() {
 		if r := recover(); r != nil {
 			o.Panic = fmt.Sprint(r)
 		}
 	}()
-	res := xpath.NewCtxFromCurrent(gocontext.Background(), m, entry).Run()
+	res := xpath.NewCtxFromCurrent(gocontext.Background(), m, entry).SetDebug(debug).Run()
 	if res == nil {
 		o.Panic = "Run returned nil"
 		return
